@@ -171,6 +171,10 @@ def run(prop, tier="quick", seed=0, write_baseline=False):
     violations = []
     known_lines = []
     replay_dir = os.path.join(VERIF, "replay", prop)
+    if os.path.isdir(replay_dir):
+        for fn_ in os.listdir(replay_dir):          # replay files of earlier runs are not this run's
+            if fn_.endswith(".json"):
+                os.remove(os.path.join(replay_dir, fn_))
 
     def is_known(name, text):
         for k in known:
